@@ -173,6 +173,9 @@ func genReplay(r interface {
 		}
 		c.Commit = lo + uint64(r.Intn(int(c.N-lo)+1))
 		c.AppliedAt = lo + uint64(r.Intn(int(c.Commit-lo)+1))
+		if r.Chance(1, 3) {
+			c.AppliedAt = lo // killed right after the snapshot / truncation point: everything later must be replayed
+		}
 		return c
 	}
 	files := uint64(r.Range(1, 2))
